@@ -15,7 +15,7 @@ NSHARDS = {"quick": 32, "thorough": 64}
 BUDGET_S = {"quick": 200, "thorough": 1800}
 MIN_HITS = {
     'quick': {"gen_accepted": 794, "build": 3972, "mutant": 10080, "mutant_accepted": 4150, "coinbase_tx": 69, "count>=253": 20, "scriptlen>=65536": 4},
-    'thorough': {"gen_accepted": 76894, "build": 384447, "mutant": 1075200, "mutant_accepted": 443544, "coinbase_tx": 6693, "count>=253": 28, "count>=65536": 2, "scriptlen>=65536": 5},
+    'thorough': {"gen_accepted": 76894, "build": 384447, "mutant": 1075200, "mutant_accepted": 444103, "coinbase_tx": 6673, "count>=253": 28, "count>=65536": 2, "scriptlen>=65536": 5},
 }
 
 COUNTS_Q = [0, 1, 2, 3, 252, 253, 254, 255, 256, 300]
@@ -120,6 +120,22 @@ def cases(ctx):
         tx["outs"][0]["value"] = v
         tx["outs"][1]["value"] = 0
         yield enc_case(tx, "ints")
+    # repeated elements: two or more inputs naming the SAME outpoint (consensus-invalid, but a well-formed byte string all the same),
+    # identical inputs, identical outputs
+    for di in range(6):
+        k += 1
+        if k % N != S:
+            continue
+        tx = gen.gen_tx(r, r.choice([2, 3, 5]), r.choice([2, 3]), coinbase=False)
+        a, b = r.sample(range(len(tx["ins"])), 2)
+        if di % 3 == 0:
+            tx["ins"][b] = dict(tx["ins"][a])
+        elif di % 3 == 1:
+            tx["ins"][b] = dict(tx["ins"][b], txid_wire=tx["ins"][a]["txid_wire"], vout=tx["ins"][a]["vout"])
+        else:
+            tx["ins"] = [dict(tx["ins"][a]) for _ in tx["ins"]]
+        tx["outs"][1] = dict(tx["outs"][0])
+        yield enc_case(tx, "repeated_elements")
     # random generated + mutated
     n = 2000 if thorough else 45
     for _ in range(n):
@@ -184,6 +200,12 @@ def txin_hist_cases(r, n):
     for _ in range(n):
         start_cb = r.random() < 0.5
         script = gen.rbytes(r, r.choice([2, 5, 40, 100])) if start_cb else gen.gen_script(r, 2)
+        single_push = r.random() < 0.35
+        if single_push:
+            # a REGULAR script consisting of exactly one direct push, on the null outpoint, handed to TxIn::new / the setter as a script
+            pl = r.choice([1, 3, 4, 20, 75])
+            script = bytes([pl]) + gen.rbytes(r, pl)
+            start_cb = True
         m = {"txid": NULL if start_cb else gen.rbytes(r, 32).hex(), "vout": 0xFFFFFFFF if start_cb else r.choice([0, 1, 0xFFFFFFFF, gen.u32(r)]), "script": script.hex(), "seq": gen.u32(r)}
         parsed = r.random() < 0.6
         steps = []
@@ -202,6 +224,9 @@ def txin_hist_cases(r, n):
             elif x < 0.85:
                 as_cb = r.random() < 0.5
                 sc = gen.rbytes(r, r.choice([2, 7, 33])) if as_cb else gen.gen_script(r, 2)
+                if not as_cb and r.random() < 0.4:
+                    pl = r.choice([1, 4, 33, 75])
+                    sc = bytes([pl]) + gen.rbytes(r, pl)
                 m["script"] = sc.hex()
                 steps.append({"op": "set_unlocking_script", "script": sc.hex(), "coinbase": as_cb})
             elif x < 0.93:
@@ -209,7 +234,7 @@ def txin_hist_cases(r, n):
             else:
                 steps.append({"op": "clone"})
             models.append(dict(m))
-        yield {"k": "txin_hist", "parsed": parsed, "start_coinbase_script": start_cb, "start": models[0], "steps": steps, "models": models}
+        yield {"k": "txin_hist", "parsed": parsed and not single_push, "start_coinbase_script": start_cb and not single_push, "start": models[0], "steps": steps, "models": models, "single_push_on_null_outpoint": single_push}
 
 
 def extra_stages(tier, seed, res):
@@ -316,6 +341,8 @@ def judge(ctx, case):
         if ni or no:
             ctx.nontrivial()
         ctx.hit("gen")
+        if case.get("tag"):
+            ctx.hit("tag_" + case["tag"])
         if case.get("via_hex"):
             ctx.hit("via_from_hex")
         if max(ni, no) >= 253:
@@ -443,6 +470,8 @@ def judge(ctx, case):
                 ctx.viol("stand-alone txout value disagrees with the bytes", {"hex": case["hex"][:300]})
     elif k == "txin_hist":
         ctx.hit("txin_hist")
+        if case.get("single_push_on_null_outpoint"):
+            ctx.hit("single_push_script_on_null_outpoint")
         ctx.nontrivial()
         m0 = case["models"][0]
         enc = lambda m: wire.txin_encode({"txid_wire": bytes.fromhex(m["txid"])[::-1], "vout": m["vout"], "script": bytes.fromhex(m["script"]), "seq": m["seq"]})
